@@ -18,7 +18,8 @@ VMAP = {"-": "keep", "N": "file", "T": "tree"}
 
 def model_scenarios(consts, tag):
     """initial states of WalkMC (every tree, every verdict table ...) printed by TLC"""
-    d = C.cache_dir("gen", C.spec_hash())
+    d = C.cache_dir("gen", C.module_hash("WalkMC"))
+    os.utime(d)
     path = os.path.join(d, "walkmc-%s.json" % tag)
     if os.path.exists(path):
         with open(path) as f:
